@@ -119,6 +119,24 @@ pub fn replay(args: &[String]) {
         }
     }
     crate::util::install_panic_hook();
+    if args.iter().any(|a| a == "--cost") {
+        // C15: measure and judge every call of the replayed history
+        let mut stats = crate::props::cost::CostStats::default();
+        for op in r["ops"].as_array().cloned().unwrap_or_default() {
+            let p = op["parser"].as_u64().unwrap_or(0) as usize;
+            if op.get("evict").is_some() {
+                continue;
+            }
+            let b = crate::util::unhex(op["hex"].as_str().unwrap_or(""));
+            let c = crate::props::cost::measure(&mut sut, p, &b);
+            let v = match crate::props::cost::judge(&c, &mut stats) {
+                Ok(_) => "within the bounds".to_string(),
+                Err(d) => format!("VIOLATES {} {}: {}", d.unit, d.class, d.detail),
+            };
+            println!("parser {} <- {} bytes: requested {} bytes in {} allocations, largest single request {}, result {} bytes, {} structural items, {} cells from zero-length fields, zmax {}: {}", p, b.len(), c.m.requested, c.m.count, c.m.max_single, c.result_bytes, c.units, c.zero_cells, c.zmax, v);
+        }
+        return;
+    }
     for op in r["ops"].as_array().cloned().unwrap_or_default() {
         let p = op["parser"].as_u64().unwrap_or(0) as usize;
         if let Some(e) = op.get("evict") {
